@@ -40,8 +40,9 @@ def cowCluster (i : Info) (host : Nat) : R := (host, i.clusterSize)
 /-- header read in `qcow2_alloc_dev` (4096, then 65536 on failure) -/
 def headerRead (n : Nat) : R := (0, n)
 
-/-- `commit_header`: the serialized header (raw header 112 + extensions + backing name) -/
-def headerWrite (serializedLen : Nat) : R := (0, serializedLen)
+/-- `commit_header`: the serialized header (raw header 112 + extensions + backing
+    name) copied into an aligned buffer padded to the block size -/
+def headerWrite (bs serializedLen : Nat) : R := (0, (serializedLen + bs - 1) / bs * bs)
 
 def aligned (bs : Nat) (r : R) : Prop := r.1 % bs = 0 ∧ r.2 % bs = 0
 
